@@ -431,6 +431,34 @@ def gate_zoo():
                     continue
         if not made:
             skipped.append(name)
+    # the same classes constructed with KEYWORD arguments (CachedClass keys its singletons by the literal call, and the
+    # reducer must ship keyword arguments too): every parameter with a default is passed by keyword with a non-default value
+    kw_candidates = {'radix': [3, 4], 'num_qudits': [2, 3], 'num_levels': [3], 'radixes': [[3], [2, 3], [3, 3]],
+                     'num_controls': [2], 'control_radixes': [3], 'level': [1], 'levels': [[1]], 'power': [2]}
+    for name in names:
+        cls = getattr(G, name, None)
+        if not inspect.isclass(cls) or not issubclass(cls, Gate) or inspect.isabstract(cls):
+            continue
+        try:
+            sig = inspect.signature(cls.__init__)
+        except (TypeError, ValueError):
+            continue
+        pars = [q for q in list(sig.parameters.values())[1:] if q.kind in (q.POSITIONAL_OR_KEYWORD, q.KEYWORD_ONLY)]
+        required = [q for q in pars if q.default is q.empty]
+        for q in pars:
+            if q.default is q.empty:
+                continue
+            for val in kw_candidates.get(q.name, []):
+                if val == q.default:
+                    continue
+                for pos in ((), (1,), (2,), (3,)):
+                    if len(pos) != len(required):
+                        continue
+                    try:
+                        zoo.append(('%s(%s%s=%r)' % (name, ''.join('%r, ' % a for a in pos), q.name, val), cls(*pos, **{q.name: val})))
+                        break
+                    except Exception:
+                        continue
     # composed gates stacked on each other
     zoo += [('DaggerGate(ControlledGate)', G.DaggerGate(G.ControlledGate(G.U3Gate()))),
             ('TaggedGate(CircuitGate)', G.TaggedGate(G.CircuitGate(sub), 7)),
